@@ -24,7 +24,12 @@ BUILTIN_NAMES = set(BUILTIN_TYPES) | {
     'iter', 'next', 'super', 'getattr', 'setattr', 'print', 'dir', 'enumerate', 'zip', 'any', 'all',
     'reversed', 'sum', 'map', 'filter', 'id', 'type', 'object', 'callable', 'vars', 'format',
 }
-BUILTIN_EXC = {
+def _builtin_exception_names():
+    import builtins
+    return {n for n, v in vars(builtins).items() if isinstance(v, type) and issubclass(v, BaseException)}
+
+
+BUILTIN_EXC = _builtin_exception_names() | {
     'Exception', 'BaseException', 'TypeError', 'ValueError', 'StopIteration', 'GeneratorExit',
     'UnicodeDecodeError', 'ImportError', 'OSError', 'IOError', 'KeyError', 'AttributeError',
     'RuntimeError', 'AssertionError', 'KeyboardInterrupt', 'NotImplementedError', 'IndexError',
